@@ -66,6 +66,12 @@ def _cases_first_call(tier):
                         'names': 'dim', 'coords_as': 'coord'})
         out.append({'family': 'cf1d', 'ny': a, 'nx': b, 'lat_kind': 'asc', 'lon_kind': 'asc', 'lat0': -0.125, 'lon0': -0.125, 'bounds': 'var',
                     'signed_zero': True, 'names': 'dim', 'coords_as': 'coord'})
+        for bnds in ('none', 'var'):
+            out.append({'family': 'cf1d', 'ny': a, 'nx': b, 'lat_kind': 'asc', 'lon_kind': 'desc', 'bounds': bnds, 'valid_range': True,
+                        'names': 'dim', 'coords_as': 'coord'})
+        for lat_kind, lon_kind in (('desc', 'asc'), ('descnonuni', 'desc')):
+            out.append({'family': 'cf1d', 'ny': a, 'nx': b, 'lat_kind': lat_kind, 'lon_kind': lon_kind, 'bounds': 'var', 'bounds_rows': 'sorted',
+                        'names': 'dim', 'coords_as': 'coord'})
         # hairline gaps between stored cells, at coordinates of large magnitude
         out.append({'family': 'cf1d', 'ny': a, 'nx': b, 'lat_kind': 'asc', 'lon_kind': 'asc', 'lat0': -30.0, 'lon0': 150.0, 'bounds': 'hairline',
                     'names': 'dim', 'coords_as': 'coord'})
